@@ -394,6 +394,25 @@ def generate(rng, tier):
         cases.append(c_cmp(rng.choice(U), rng.choice(U)))
     for x, y in near_pairs(rng, U, 9000 * mult):
         cases.append(c_cmp(x, y))
+    # objects that differ in exactly one bit of one component - every bit position of the width, every run:
+    # equality / hash / order are by (version, value[, prefix]) resp. (version, first, last) and each component has
+    # `width` independent bits (a seeded change packed two components into one integer and one bit was lost)
+    for ver in (4, 6):
+        w = W[ver]
+        m = (1 << w) - 1
+        va = rand_value(rng, w)
+        for bit in range(w):
+            vb = va ^ (1 << bit)
+            cases.append(c_cmp(('A', ver, va), ('A', ver, vb)))
+            p = rng.randrange(0, w + 1)
+            cases.append(c_cmp(('N', ver, va, p), ('N', ver, vb, p)))
+            lo, hi = min(va, vb), max(va, vb)
+            hi2 = hi ^ (1 << rng.randrange(w))
+            cases.append(c_cmp(('R', ver, lo, hi), ('R', ver, lo, hi2 if lo <= hi2 <= m else hi)))
+            cases.append(c_cmp(('R', ver, lo, hi), ('R', ver, lo ^ (1 << bit) if (lo ^ (1 << bit)) <= hi else lo, hi)))
+        for p in range(w + 1):
+            q = min(w, p + 1)
+            cases.append(c_cmp(('N', ver, va, p), ('N', ver, va, q)))
     for o in U:
         cases.append(c_cmp(o, o))
         # the same integers in the other family
